@@ -88,7 +88,7 @@ func initSkipped(path string) bool {
 	case "os", "errors", "runtime", "syscall", "net", "reflect", "testing", "log", "os/signal", "os/exec", "os/user",
 		"net/http", "crypto/x509", "crypto/tls", "database/sql", "flag", "expvar", "net/http/pprof",
 		"runtime/pprof", "runtime/trace", "runtime/debug", "mime", "html", "html/template", "text/template",
-		"go/build", "go/token", "plugin", "internal/poll", "internal/godebug", "internal/cpu":
+		"go/build", "go/token", "plugin", "internal/poll", "internal/godebug", "internal/cpu", "encoding/asn1":
 		return true
 	}
 	for _, p := range []string{"internal/", "runtime/", "vendor/", "go.uber.org/", "google.golang.org/", "github.com/prometheus/",
@@ -411,6 +411,16 @@ func (x *Exec) prepareCall(fr *frame, call *ssa.CallCommon) (fn Value, args []Va
 		fn = v
 	} else {
 		recv := v.(Iface)
+		if recv.t == nil && call.Method.Pkg() != nil && x.eng.isNoopPkg(call.Method.Pkg().Path()) {
+			// nil interface value produced by a no-op package (logger, span, counter): its methods are no-ops too
+			res := call.Signature().Results()
+			return NativeFn(func(*Exec, *frame, []Value) Value {
+				if res.Len() == 0 {
+					return nil
+				}
+				return zero(res)
+			}), nil
+		}
 		if recv.t == nil {
 			x.tpanic("invalid memory address or nil pointer dereference (method call on nil interface " + call.Method.Name() + ") in " + fr.fn.String())
 		}
